@@ -158,6 +158,14 @@ def c02(case, obs):
         if drained:
             tail.append(o)          # behaviour after the end was reached is part of the observable
             continue
+        if op.startswith("x") and o.startswith("err:"):
+            # a failed read_exact has taken an unspecified number of bytes (std: "the contents of buf are unspecified"), and whether
+            # a given read_exact fails depends on how much the earlier `consume(all of the last fill)` operations took, i.e. on
+            # where the internal window stood. For programs with read_exact only this is comparable: everything delivered is
+            # a prefix of the un-escaped payload (reference un-escaper below) - the whole of it if no read_exact failed
+            so_far = "".join(delivered)
+            want = _unescape_ref(_nal_of(t[1])[int(t[3]):]).hex()
+            return "XPROG consistent=" + str(want.startswith(so_far))
         if o.startswith("ok:"):
             if op.startswith("f"):
                 last_fill = o[3:]
@@ -177,6 +185,10 @@ def c02(case, obs):
             # when the end is reached depends on how much each call returned; the drain status below records it
             if o == "err:InvalidData" and o not in errs:
                 errs.append(o)
+    if any(op.startswith("x") for op in t[4:]):
+        want = _unescape_ref(_nal_of(t[1])[int(t[3]):]).hex()
+        got = "".join(delivered)
+        return "XPROG consistent=" + str(got == want if drained and errs and errs[-1] == "D=end" else want.startswith(got))
     return "".join(delivered) + " " + ",".join(errs) + " " + " ".join(tail)
 
 
@@ -218,6 +230,19 @@ def rbsp_valid(payload):
         z = z + 1 if b == 0 else 0
         i += 1
     return True
+
+
+def _unescape_ref(payload):
+    """reference un-escaper (valid payloads): drop each 03 that follows two zero bytes"""
+    out = bytearray()
+    z = 0
+    for b in payload:
+        if z >= 2 and b == 3:
+            z = 0
+            continue
+        out.append(b)
+        z = z + 1 if b == 0 else 0
+    return bytes(out)
 
 
 def _nal_of(chunks):
